@@ -124,14 +124,12 @@ Theorem decode_encode is :
   Forall instr_ok is -> decode (encode is) = Some (positions is).
 Proof. intros H. unfold decode, positions. apply decode_from_encode; auto. Qed.
 
-(* the VM's operand widths and Instruction::span differ exactly at NativeFunctionPointer (finding) *)
+(* the VM's operand widths and Instruction::span agree for every opcode *)
 Lemma span_table_vs_vm :
-  forall o n, In (o, n) span_table ->
-              (o <> OpNativeFunctionPointer -> n = op_span o) /\
-              (o = OpNativeFunctionPointer -> n = 6 /\ op_span o = 5).
+  forall o n, In (o, n) span_table -> n = op_span o.
 Proof.
   intros o n H. cbn in H.
-  repeat (destruct H as [H|H]; [inversion H; subst; split; [reflexivity || (intros; congruence) | intros E; try discriminate E; split; reflexivity]|]).
+  repeat (destruct H as [H|H]; [inversion H; subst; reflexivity|]).
   contradiction.
 Qed.
 
